@@ -305,7 +305,7 @@ static std::string op_fault(const std::vector<std::string> &a)
 {
   bool enc = a[0] == "encf";
   memfile in, out;
-  FILE *fo = open_mem(&out, "w+", false);
+  FILE *fo = open_mem(&out, "w+", a.back() == "nobuf");   // unbuffered: a failing write is reported by the fwrite that made it
   bool r;
   if (enc)
   {
@@ -313,7 +313,7 @@ static std::string op_fault(const std::vector<std::string> &a)
     bytes key = unhex(a[4]), seed = unhex(a[5]);
     in.data = unhex(a[6]);
     in.fail_total = strtoull(a[7].c_str(), NULL, 10);
-    if (a.size() > 8)
+    if (a.size() > 8 && a[8] != "nobuf")
       out.wfail_total = strtoull(a[8].c_str(), NULL, 10);
     seed.push_back(0);
     FILE *fin = open_mem(&in, "r", false);
@@ -327,7 +327,7 @@ static std::string op_fault(const std::vector<std::string> &a)
     bytes key = unhex(a[2]);
     in.data = unhex(a[3]);
     in.fail_total = strtoull(a[4].c_str(), NULL, 10);
-    if (a.size() > 5)
+    if (a.size() > 5 && a[5] != "nobuf")
       out.wfail_total = strtoull(a[5].c_str(), NULL, 10);
     FILE *fin = open_mem(&in, "r", false);
     Settings st(-1, -1, true);
